@@ -968,6 +968,7 @@ type gOp struct {
 	cls     int
 	evs     []quic.VerifGenEvent
 	evs2    []quic.VerifGenEvent // callbacks to the second runner (AddConnRunner)
+	routes  []quic.VerifRoute     // integrated cases: the real packetHandlerMap after the operation
 	st      quic.VerifGenState
 }
 
@@ -1042,6 +1043,13 @@ func (o *gOp) coqObs() string {
 	return u.App("GO", u.Z(int64(o.cls)), u.List(evs), u.App("GS", u.ZU(s.HighestSeq), u.List(act), u.List(ret), ini, u.Opt(s.HasNextRetire, u.Z(s.NextRetire))))
 }
 
+// coqObsNoEvents: the generator's observation for an operation that does not touch it (time passing)
+func (o *gOp) coqObsNoEvents() string {
+	c := *o
+	c.cls, c.evs = 0, nil
+	return c.coqObs()
+}
+
 func (o *gOp) human() string {
 	switch o.kind {
 	case "setmax":
@@ -1071,6 +1079,8 @@ type genSession struct {
 	c        *cidRun
 	v        *quic.VerifGen
 	rt       *quic.VerifRouting // real routing table driven by the generator's callbacks (integrated cases)
+	final    []quic.VerifRoute  // integrated cases: the map after the closing period
+	finalD   int64
 	has2     bool               // a second runner was added
 	routed2  map[string]bool    // what the second runner routes
 	ops      []*gOp
@@ -1153,6 +1163,10 @@ func (s *genSession) do(o *gOp) *gOp {
 	o.used = v.Consumed()
 	o.evs = v.TakeEvents()
 	o.evs2 = v.TakeEvents2()
+	if s.rt != nil {
+		synctest.Wait()
+		o.routes, _, _ = s.rt.Snapshot()
+	}
 	o.st = v.State()
 	s.ops = append(s.ops, o)
 	s.monitor(o)
@@ -1443,7 +1457,24 @@ func (s *genSession) emit() {
 	if s.nRetire > 0 {
 		nt = 1
 	}
-	fmt.Fprintf(s.c.w, "CASE %d %s\n", nt, u.App("GenCase", hxs(s.initial), optCID(map[bool][]byte{true: s.client, false: nil}[s.hasCli]), u.B(s.len0), u.List(items)))
+	if s.rt != nil {
+		tbl := func(rs []quic.VerifRoute) string {
+			xs := make([]string, len(rs))
+			for i, r := range rs {
+				xs[i] = u.Pair(hxs(r.CID), u.Z(int64(r.Kind)), u.Z(int64(r.Ref)))
+			}
+			return u.List(xs)
+		}
+		for i, o := range s.ops {
+			items[i] = u.Pair(u.App("GROp", o.coqOp()), u.App("GRO", o.coqObs(), tbl(o.routes)))
+		}
+		if s.final != nil {
+			items = append(items, u.Pair(u.App("GRAdvance", u.Z(s.finalD)), u.App("GRO", s.ops[len(s.ops)-1].coqObsNoEvents(), tbl(s.final))))
+		}
+		fmt.Fprintf(s.c.w, "CASE %d %s\n", nt, u.App("GenRouteCase", hxs(s.initial), optCID(map[bool][]byte{true: s.client, false: nil}[s.hasCli]), u.B(s.len0), u.List(items)))
+	} else {
+		fmt.Fprintf(s.c.w, "CASE %d %s\n", nt, u.App("GenCase", hxs(s.initial), optCID(map[bool][]byte{true: s.client, false: nil}[s.hasCli]), u.B(s.len0), u.List(items)))
+	}
 	d := s.c.dist
 	d["gen/cases"]++
 	d["gen/ops"] += len(s.ops)
@@ -1587,7 +1618,12 @@ func (c *cidRun) genCase(r *u.Rng, idx int, routed bool) {
 		// (e) once the closing period is over nothing of the connection is left in the transport
 		time.Sleep(6000 * time.Nanosecond)
 		synctest.Wait()
-		if routes, _, _ := s.rt.Snapshot(); len(routes) != 0 {
+		s.final, _, _ = s.rt.Snapshot()
+		if s.final == nil {
+			s.final = []quic.VerifRoute{}
+		}
+		s.finalD = 6000
+		if routes := s.final; len(routes) != 0 {
 			s.fail("map-leftover", fmt.Sprintf("%d connection IDs of the connection still in the transport's map after the closing period (first %x)", len(routes), routes[0].CID))
 		}
 		s.c.dist["gen/cases-with-real-map"]++
